@@ -611,11 +611,19 @@ def run_fakebig(case, ctx):
             json.dump(scenario, f)
         hung = 0
         w = None
+        ee = {'ZTR_FAKE_SCENARIO': sp}
+        if case['idx'] % 2 == 0:
+            # one transient error while the parent reads the big child's
+            # stdout: it reports it and goes on draining the pipe - a child
+            # that still has more than a pipe buffer to write would block
+            # for ever otherwise
+            ee['ZTR_READ_FAIL'] = '1:%d:%s' % (
+                1 + case['idx'] % 5, ['EIO', 'EAGAIN'][case['idx'] // 2 % 2])
+            ctx.C('big_volume_cases_with_a_transient_read_error')
         for attempt in range(3):
             w = common.run_world(spec, None, {'processes': 2, 'verbose': 1},
                                  root=root, mode='cli', launcher=FAKE_PARENT,
-                                 env_extra={'ZTR_FAKE_SCENARIO': sp},
-                                 timeout=90)
+                                 env_extra=ee, timeout=90)
             if not w.timed_out:
                 break
             hung += 1
